@@ -146,6 +146,8 @@ pub fn c13(ctx: &mut Ctx) -> (u64, String) {
             }
         }
     }
+    crate::props::scan::other_constructors_check::<ScancodeSet2>(ctx, "constructors");
+    crate::props::scan::other_constructors_check::<ScancodeSet1>(ctx, "constructors");
     ctx.part("table:forward+backward", json!({"forward_sequences": forward, "backward_sequences": backward, "keys_expressible_in_both_sets": keys_both.len()}));
     ctx.expect(keys_both.len() >= 100, "at least 100 keys are expressible in both sets (vacuity guard)");
 
